@@ -939,9 +939,12 @@ Definition hp_site_eqb (a b : bytes * bytes * bytes) : bool :=
    the data of the caller.
    - functionCycle, values[i] = firstArgVal.Index(i).Interface(): the analysis is flow-insensitive; values is assigned
      args[:len(args)-1] and args in the else branch, but the indexed assignment stands in the branch that has just
-     assigned values = make([]interface{}, firstArgVal.Len()), so it fills the new slice. *)
+     assigned values = make([]interface{}, firstArgVal.Len()), so it fills the new slice.
+   - filterFormat, args[i] = cyclicValueText: the statement directly before it in the same branch rebinds args to
+     append([]interface{}(nil), args...), a private copy of the variadic slice, so the indexed assignment fills the copy. *)
 Definition hp_fw_justified : list (bytes * bytes * bytes) :=
-  [ (b#"CoreExtension.functionCycle", b#"index-assign", b#"values[i]") ].
+  [ (b#"CoreExtension.functionCycle", b#"index-assign", b#"values[i]");
+    (b#"CoreExtension.filterFormat", b#"index-assign", b#"args[i]") ].
 
 (* the functions the model speaks about must have been scanned *)
 Definition hp_fw_must_scan : list bytes :=
